@@ -10,9 +10,9 @@
 (* (not representable in 16 decimal digits) and to n for an integer variable.  *)
 (* For every instance the module computes the rows of the text file and the    *)
 (* layout of the HDF5 group, decodes them again as the readers do, and states  *)
-(* that the decoded space is the instance (RoundTripCsv, RoundTripHdf). Rows and  *)
-(* layout are printed for the harness, which compares them with what gemseo    *)
-(* writes, and the instance with the spaces gemseo reads back.                 *)
+(* that the decoded space is the instance (RoundTripCsv, RoundTripHdf).  Rows  *)
+(* and layout are printed for the harness, which compares them with what       *)
+(* gemseo writes, and the instance with the spaces gemseo reads back.          *)
 EXTENDS Naturals, Integers, Sequences, FiniteSets, TLC
 CONSTANTS NVars, Sizes, Types, Patterns
 VARIABLES shapes          \* the instance: a sequence of variable shapes
@@ -36,8 +36,9 @@ Var(j, s) == [name |-> VarNames[j], size |-> s.size, type |-> s.type,
 Space(sh) == [j \in 1..Len(sh) |-> Var(j, sh[j])]
 
 -----------------------------------------------------------------------------
-\* to_csv: one row per component, fields name / value / lower_bound / upper_bound / type;
+\* to_csv: a header line with the field names, then one row per component;
 \* a missing current value is printed None
+CsvHeader == <<"name", "lower_bound", "value", "upper_bound", "type">>
 RowsOf(v) == [i \in 1..v.size |-> [name |-> v.name, some |-> v.hasVal, value |-> IF v.hasVal THEN v.val[i] ELSE 0,
                                    lb |-> v.lb[i], ub |-> v.ub[i], type |-> v.type]]
 RECURSIVE Flatten(_, _)
@@ -82,5 +83,5 @@ RoundTripCsv == FromCsv(CsvRows(Space(shapes))) = Space(shapes)
 RoundTripHdf == FromHdf(HdfOf(Space(shapes))) = Space(shapes)
 RowCount == Len(CsvRows(Space(shapes))) = Len(shapes) + Cardinality({j \in 1..Len(shapes) : shapes[j].size = 2})
 \* the instance with what the specification expects in the files (evaluated once per instance)
-Emit == PrintT(<<"CASE", Space(shapes), CsvRows(Space(shapes)), HdfOf(Space(shapes))>>)
+Emit == PrintT(<<"CASE", Space(shapes), CsvHeader, CsvRows(Space(shapes)), HdfOf(Space(shapes))>>)
 =============================================================================
